@@ -80,7 +80,7 @@ pub proof fn lemma_single_sub_block(t: int, al: int, k: int, data: Seq<u8>, idx:
     assert(Seq::<u8>::empty() + data.subrange(idx * t, idx * t + t) =~= data.subrange(idx * t, idx * t + t));
 }
 // j-th item of <[T]>::chunks(n): n consecutive elements, the last chunk possibly shorter
-pub open spec fn chunk(data: Seq<u8>, n: int, j: int) -> Seq<u8> {
+pub open spec fn chunk_of(data: Seq<u8>, n: int, j: int) -> Seq<u8> {
     data.subrange(j * n, if (j + 1) * n <= data.len() { (j + 1) * n } else { data.len() as int })
 }
 pub open spec fn symbols_ok(r: Seq<Symbol>, t: int, al: int, n: int, data: Seq<u8>) -> bool {
@@ -110,7 +110,7 @@ fn verif_symbols_from_vecs(v: &mut Vec<Vec<u8>>) -> (r: Vec<Symbol>)      // v.d
 fn verif_symbols_from_chunks(data: &[u8], n: usize) -> (r: Vec<Symbol>)   // data.chunks(n).map(|x| Symbol::new(Vec::from(x))).collect()
     requires n > 0,                                                        // <[T]>::chunks panics for chunk_size 0
     ensures r@.len() == ceil_div(data@.len() as int, n as int),
-            forall |j: int| 0 <= j < r@.len() ==> (#[trigger] r@[j]).value@ == chunk(data@, n as int, j),
+            forall |j: int| 0 <= j < r@.len() ==> (#[trigger] r@[j]).value@ == chunk_of(data@, n as int, j),
 { unimplemented!() }
 '''
 
@@ -181,7 +181,7 @@ def build():
                         'proof { assert(kk * (%s) == (%s) * kk) by (nonlinear_arith); }' % (T, T)),
                        ('verif_symbols_from_chunks(data,', 'before',
                         ('proof { lemma_ceil_div_exact(data@.len() as int, %s);'
-                         ' assert forall |idx: int| 0 <= idx < kk implies #[trigger] chunk(data@, %s, idx) == symbol_spec(%s, %s, 1, kk, data@, idx) by { lemma_single_sub_block(%s, %s, kk, data@, idx);'
+                         ' assert forall |idx: int| 0 <= idx < kk implies #[trigger] chunk_of(data@, %s, idx) == symbol_spec(%s, %s, 1, kk, data@, idx) by { lemma_single_sub_block(%s, %s, kk, data@, idx);'
                          '   assert((idx + 1) * (%s) == idx * (%s) + (%s)) by (nonlinear_arith); assert((idx + 1) * (%s) <= kk * (%s)) by (nonlinear_arith) requires idx + 1 <= kk, %s >= 0; } }')
                         % (T, T, T, AL, T, AL, T, T, T, T, T, T))])
     u.raw('}')
